@@ -128,7 +128,7 @@ theorem C05_tablerow_truthful (i n c : Nat) :
     fld o "col0" = some (iV ((i % c : Nat) : Int)) ∧
     fld o "col" = some (iV ((i % c : Nat) + 1)) ∧
     fld o "col_first" = some (bV ((i % c) == 0)) ∧
-    fld o "col_last" = some (bV ((((i % c : Nat) : Int) == (c : Int) - 1) || ((i : Int) == (n : Int) - 1))) := by
+    fld o "col_last" = some (bV ((((i % c : Nat) : Int) + 1 == (c : Int)) || ((i : Int) == (n : Int) - 1))) := by
   simp [tablerowObj, fld, objGet, List.find?, iV, bV]
   constructor
   · cases i <;> simp; omega
